@@ -6,6 +6,8 @@
      - uses it only through order-free observations (membership, size, equality) (OrderFree);
    a site that lets the enumeration order through (list(set(..)), for x in set) is not:
    two enumerations of one set give two different outputs (HashOrder, refuted below).
+   GlobalState marks a module-level container that a function mutates: state that survives
+   from one compilation into the next.
    Sites that dedupe a LIST with dict.fromkeys are functions of that list: nothing to prove. *)
 From Coq Require Import List Arith Lia Permutation Sorted Bool PeanoNat.
 Import ListNotations.
@@ -110,6 +112,6 @@ Example sorted_example : isort nat (fun n => n) [3; 1; 2] = isort nat (fun n => 
 Proof. reflexivity. Qed.
 
 (* the site table *)
-Inductive site_kind := Sorted | OrderFree | ListDedup | HashOrder | HistoryId.
+Inductive site_kind := Sorted | OrderFree | ListDedup | HashOrder | HistoryId | GlobalState.
 Definition site_ok (k : site_kind) : bool :=
-  match k with Sorted | OrderFree | ListDedup => true | HashOrder | HistoryId => false end.
+  match k with Sorted | OrderFree | ListDedup => true | HashOrder | HistoryId | GlobalState => false end.
